@@ -193,7 +193,11 @@ class SimpleRule(FunctionContract):
         self.check, self.n = check, n
         self.variant_name = "check=%s" % check + (",operands=%d" % n if method == "map_logical_or" else "")
         self.kinds = [z3.Const("kind_of_operand_%d" % i, Kind) for i in range(n)]
-        self.is_complex = z3.Bool("constant_is_a_Python_complex")
+        # the type of the constant: the built-in complex (numpy.complex128 is a subclass of it) / a numpy complexfloating
+        # (numpy.complex64 is only that)
+        self.is_py_complex = z3.Bool("constant_is_a_Python_complex")
+        self.is_np_complex = z3.Bool("constant_is_a_numpy_complexfloating")
+        self.is_complex = z3.Or(self.is_py_complex, self.is_np_complex)
 
     def params(self, ctx):
         ch = VTuple([VChild(i) for i in range(self.n)])
@@ -209,8 +213,10 @@ class SimpleRule(FunctionContract):
         return KIND.wrap(self.kinds[c.i])
 
     def isinstance_hook(self, ctx, it, obj, names):
-        if isinstance(obj, VObj) and names == ["complex"]:
-            return VBool(self.is_complex)
+        table = {"complex": self.is_py_complex, "np.complexfloating": self.is_np_complex,
+                 "numpy.complexfloating": self.is_np_complex}
+        if isinstance(obj, VObj) and names and all(n in table for n in names):
+            return VBool(z3.Or(*[table[n] for n in names]))
         return None
 
     def binop_hook(self, ctx, it, op_, a, b):
@@ -219,7 +225,13 @@ class SimpleRule(FunctionContract):
             return VPy("<message>")
         return None
 
-    names = property(lambda self: dict(KIND_CLASSES, complex=VClass("complex"),
+    def getattr_hook(self, ctx, it, obj, name):
+        o = ctx.deref(obj)
+        if isinstance(o, VPy) and o.py in ("np", "numpy") and name == "complexfloating":
+            return VClass("np.complexfloating")
+        return None
+
+    names = property(lambda self: dict(KIND_CLASSES, complex=VClass("complex"), np=VPy("np"), numpy=VPy("numpy"),
                                        type=VFunc("type", lambda ctx, it, a, k: VObj(TObj("t", {}), {"__name__": VPy("<name>")}))))
 
     def ensures(self, st):
@@ -235,7 +247,8 @@ class SimpleRule(FunctionContract):
         if m == "map_max":
             return [("a-real-scalar", r.t == Kind.Scalar(True))]
         if m == "map_constant":
-            return [("complex-scalar-exactly-for-a-complex-constant", r.t == Kind.Scalar(Not(self.is_complex)))]
+            return [("complex-scalar-exactly-for-a-constant-of-a-complex-type(built-in-or-numpy)",
+                     r.t == Kind.Scalar(Not(self.is_complex)))]
         if m == "map_subscript":
             a = self.kinds[0]
             out = [("the-scalar-of-the-aggregate's-element-type",
